@@ -18,6 +18,8 @@ def gen_exhaustive(chk, depth, conns="{1, 2}", maxmsgs=2):
 def msg_for(stype, c, n):
     tag = "c%dm%d" % (c, n)
     body = [tag.encode()] if n % 2 else [b"f1" + tag.encode(), b"", (tag.encode() + b"." * 300)[:300]]
+    if c == 2 and n == 1:
+        body = [tag.encode(), b""]          # zero-length last frame
     if stype == "REP":
         body = [b""] + body
     if stype == "XPUB":
